@@ -98,13 +98,27 @@ def frange(r):
     return out
 
 
-def job_xilinx(modname, clsname, ckw, win, nout, margin, tag):
-    """win = dict(divclk=(lo, n), mult=(lo, n), div=(lo, n), div0=(lo, n, step) optional)"""
+def job_xilinx(modname, clsname, ckw, win, nout, margin, tag, after=None):
+    """win = dict(divclk=(lo, n), mult=(lo, n), div=(lo, n), div0=(lo, n, step) optional);
+    after = [(module, class, ctor kwargs, clkin, fout)]: helpers of OTHER primitives configured earlier in the same process (a design with an MMCM and
+    a PLL): the configuration of the helper under test must not depend on that history"""
     stubs()
     import importlib
     from migen import Signal, ClockDomain
     mod = importlib.import_module("litex.soc.cores.clock." + modname)
     cls = getattr(mod, clsname)
+    for (m2, c2, kw2, cin2, f2) in (after or []):
+        other = getattr(importlib.import_module("litex.soc.cores.clock." + m2), c2)(**kw2)
+        # (small ranges on the earlier helper too: whatever it leaves behind stays small enough for the path explorer)
+        other.clkout_divide_range = (2, 5)
+        if getattr(other, "clkout0_divide_range", None) is not None:
+            other.clkout0_divide_range = (2, 3, 1/8)
+        other.register_clkin(Signal(), cin2)
+        other.create_clkout(ClockDomain("hist"), f2)
+        try:
+            other.compute_config()
+        except (ValueError, AssertionError):
+            pass
 
     def body(ctx):
         pll = cls(**ckw)
@@ -174,7 +188,7 @@ def job_xilinx(modname, clsname, ckw, win, nout, margin, tag):
         return res
     checks = ["dividers_inside_ranges", "outputs_within_margin_and_vco_in_range", "phases_equal_request", "instance_parameters_equal_config", "refused_only_if_no_setting_in_window"]
     return run_pysym("%s_%s" % (clsname.lower(), tag), body, checks, required_events=["configured", "refused"], funcs=FUNCS,
-                     cfg=dict(cls=clsname, ctor=ckw, window=win, outputs=nout, margin=margin, phases=PHASES[:nout]), replay_dir=rdir(), max_paths=300000)
+                     cfg=dict(cls=clsname, ctor=ckw, window=win, outputs=nout, margin=margin, phases=PHASES[:nout], configured_before=[a[1] for a in (after or [])]), replay_dir=rdir(), max_paths=300000)
 
 
 def job_uspmmcm(ckw, win, nout, margin, tag):
@@ -418,6 +432,13 @@ def jobs(tier):
         ]
     for (modn, cls, ckw, win, nout, mg, tag) in X:
         js.append(Job("%s_%s" % (cls.lower(), tag), job_xilinx, dict(modname=modn, clsname=cls, ckw=ckw, win=win, nout=nout, margin=mg, tag=tag), cost=20 * nout * nout, timeout_s=7000))
+    # several helpers of different primitives in one design (= one process): the helper under test is configured AFTER an MMCM / a PLL / a DCM was
+    hist_mmcm = [("xilinx_s7", "S7MMCM", dict(speedgrade=-1), 100e6, 200e6)]
+    hist_pll = [("xilinx_s7", "S7PLL", dict(speedgrade=-1), 100e6, 200e6), ("xilinx_s6", "S6DCM", dict(speedgrade=-1), 100e6, 50e6)]
+    js.append(Job("s7pll_low_1out_after_mmcm", job_xilinx, dict(modname="xilinx_s7", clsname="S7PLL", ckw=dict(speedgrade=-1), win=dict(divclk=(1, 2), mult=(2, 3), div=(1, 3)), nout=1, margin=1e-2,
+                                                              tag="low_1out_after_mmcm", after=hist_mmcm), cost=20, timeout_s=7000))
+    js.append(Job("s7mmcm_low_frac_1out_after_pll_dcm", job_xilinx, dict(modname="xilinx_s7", clsname="S7MMCM", ckw=dict(speedgrade=-1), win=dict(divclk=(1, 2), mult=(2, 3), div=(1, 2), div0=(1, 3, Fraction(1, 8))),
+                                                                       nout=1, margin=1e-2, tag="low_frac_1out_after_pll_dcm", after=hist_pll), cost=20, timeout_s=7000))
     js.append(Job("uspmmcm_low_1out", job_uspmmcm, dict(ckw=dict(speedgrade=-1), win=dict(divclk=(1, 2), mult8=(16, 3), div0_8=(16, 3), div=(1, 2)), nout=1, margin=1e-2, tag="low_1out"), cost=30, timeout_s=7000))
     if T:
         js.append(Job("uspmmcm_low2_1out", job_uspmmcm, dict(ckw=dict(speedgrade=-1), win=dict(divclk=(1, 2), mult8=(400, 3), div0_8=(16, 3), div=(1, 2)), nout=1, margin=1e-2, tag="low2_1out"), cost=30, timeout_s=7000))
